@@ -1,0 +1,25 @@
+//go:build verif
+
+package main
+
+// Machine-checked contracts (read by /verif/engine; comment-only, compiled only with -tags verif).
+//
+// ceil8: the integer oracle "rounded up to the next multiple of 8".
+//@ spec func ceil8(x uint64) uint64 = ((x + 7) / 8) * 8
+//
+// binCount goes through float64; exact for counts up to 2^53 (beyond that float64 cannot represent
+// every integer and the result can be below the count: recorded as a known limitation, DESIGN.md section 5 item 6).
+//@ func binCount(count uint) (r uint)
+//@   props C19
+//@   model bv
+//@   requires count <= 1<<53
+//@   ensures r == ceil8(count)
+//@   ensures r >= count && r % 8 == 0 && r - count <= 7
+//
+//@ func (c *roundedCounter) Inc()
+//@   props C19
+//@   model bv
+//@   requires c != nil && c.value == ceil8(c.total) && c.total < 1<<63
+//@   ensures c.total == old(c.total) + 1
+//@   ensures c.value == ceil8(c.total)
+//@   ensures c.value >= c.total && c.value % 8 == 0 && c.value - c.total <= 7
